@@ -23,57 +23,57 @@ pub struct Prefix {
     pub subs: &'static str,
 }
 
-const SUB_SHRINK2: &str = "SUB ZqShrink (X%, Y%)\n  REDIM ZqA%(1 TO 2)\n  X% = 9\n  Y% = 8\nEND SUB\n";
-const SUB_SHRINK3: &str = "SUB ZqShrink3 (X%, Y&, Z$)\n  REDIM ZqA%(1 TO 2)\n  X% = 9\n  Y& = 70008\n  Z$ = \"zq\"\nEND SUB\n";
-const FN_BOOM: &str = "FUNCTION ZqBoom% (N%)\n  ZqBoom% = 7\n  ZqL% = 1 / N%\n  ZqBoom% = 8\nEND FUNCTION\n";
-const SUB_TWO: &str = "SUB ZqTwo (X%, Y%)\n  X% = X% + 1\n  Y% = Y% + 1\nEND SUB\n";
+const SUB_SHRINK2: &str = "SUB ZqShrink (ZqX%, ZqY%)\n  REDIM ZqA%(1 TO 2)\n  ZqX% = 9\n  ZqY% = 8\nEND SUB\n";
+const SUB_SHRINK3: &str = "SUB ZqShrink3 (ZqX%, ZqY&, ZqZ$)\n  REDIM ZqA%(1 TO 2)\n  ZqX% = 9\n  ZqY& = 70008\n  ZqZ$ = \"zq\"\nEND SUB\n";
+const FN_BOOM: &str = "FUNCTION ZqBoom% (ZqN%)\n  ZqBoom% = 7\n  ZqL% = 1 / ZqN%\n  ZqBoom% = 8\nEND FUNCTION\n";
+const SUB_TWO: &str = "SUB ZqTwo (ZqX%, ZqY%)\n  ZqX% = ZqX% + 1\n  ZqY% = ZqY% + 1\nEND SUB\n";
 
 pub const PREFIXES: &[Prefix] = &[
     Prefix {
         name: "the copy-back of an array element fails (the callee made the array smaller) while a later by-reference value waits; RESUME NEXT",
-        header: "DECLARE SUB ZqShrink (X%, Y%)\n",
+        header: "DECLARE SUB ZqShrink (ZqX%, ZqY%)\n",
         main: "REDIM SHARED ZqA%(1 TO 5)\nON ERROR GOTO ZqH1\nZqA%(4) = 1\nZqB% = 2\nZqShrink ZqA%(4), ZqB%\nPRINT \"zq1\"; ERR\nON ERROR GOTO 0\n",
         handlers: "ZqH1:\nRESUME NEXT\n",
         subs: SUB_SHRINK2,
     },
     Prefix {
         name: "the copy-back of an array element fails while two later by-reference values (LONG, STRING) wait; ON ERROR RESUME NEXT",
-        header: "DECLARE SUB ZqShrink3 (X%, Y&, Z$)\n",
+        header: "DECLARE SUB ZqShrink3 (ZqX%, ZqY&, ZqZ$)\n",
         main: "REDIM SHARED ZqA%(1 TO 5)\nON ERROR RESUME NEXT\nZqA%(4) = 1\nZqB& = 2\nZqC$ = \"c\"\nZqShrink3 ZqA%(4), ZqB&, ZqC$\nPRINT \"zq2\"\nON ERROR GOTO 0\n",
         handlers: "",
         subs: SUB_SHRINK3,
     },
     Prefix {
         name: "the copy-back of an array element fails while a later by-reference value waits; RESUME label",
-        header: "DECLARE SUB ZqShrink (X%, Y%)\n",
+        header: "DECLARE SUB ZqShrink (ZqX%, ZqY%)\n",
         main: "REDIM SHARED ZqA%(1 TO 5)\nON ERROR GOTO ZqH3\nZqA%(4) = 1\nZqB% = 2\nZqShrink ZqA%(4), ZqB%\nPRINT \"not reached\"\nZqCont3:\nPRINT \"zq3\"\nON ERROR GOTO 0\n",
         handlers: "ZqH3:\nRESUME ZqCont3\n",
         subs: SUB_SHRINK2,
     },
     Prefix {
         name: "a FUNCTION in a later argument fails after an earlier by-reference argument was evaluated; RESUME label",
-        header: "DECLARE SUB ZqTwo (X%, Y%)\nDECLARE FUNCTION ZqBoom% (N%)\n",
+        header: "DECLARE SUB ZqTwo (ZqX%, ZqY%)\nDECLARE FUNCTION ZqBoom% (ZqN%)\n",
         main: "ON ERROR GOTO ZqH4\nZqV% = 1\nZqTwo ZqV%, ZqBoom%(0)\nPRINT \"not reached\"\nZqCont4:\nPRINT \"zq4\"; ZqV%\nON ERROR GOTO 0\n",
         handlers: "ZqH4:\nRESUME ZqCont4\n",
-        subs: "SUB ZqTwo (X%, Y%)\n  X% = X% + 1\n  Y% = Y% + 1\nEND SUB\nFUNCTION ZqBoom% (N%)\n  ZqBoom% = 7\n  ZqL% = 1 / N%\n  ZqBoom% = 8\nEND FUNCTION\n",
+        subs: "SUB ZqTwo (ZqX%, ZqY%)\n  ZqX% = ZqX% + 1\n  ZqY% = ZqY% + 1\nEND SUB\nFUNCTION ZqBoom% (ZqN%)\n  ZqBoom% = 7\n  ZqL% = 1 / ZqN%\n  ZqBoom% = 8\nEND FUNCTION\n",
     },
     Prefix {
         name: "a FUNCTION in a later argument fails after an earlier by-reference argument was evaluated; RESUME NEXT (inside the FUNCTION)",
-        header: "DECLARE SUB ZqTwo (X%, Y%)\nDECLARE FUNCTION ZqBoom% (N%)\n",
+        header: "DECLARE SUB ZqTwo (ZqX%, ZqY%)\nDECLARE FUNCTION ZqBoom% (ZqN%)\n",
         main: "ON ERROR GOTO ZqH5\nZqV% = 1\nZqTwo ZqV%, ZqBoom%(0)\nPRINT \"zq5\"; ZqV%\nON ERROR GOTO 0\n",
         handlers: "ZqH5:\nRESUME NEXT\n",
-        subs: "SUB ZqTwo (X%, Y%)\n  X% = X% + 1\n  Y% = Y% + 1\nEND SUB\nFUNCTION ZqBoom% (N%)\n  ZqBoom% = 7\n  ZqL% = 1 / N%\n  ZqBoom% = 8\nEND FUNCTION\n",
+        subs: "SUB ZqTwo (ZqX%, ZqY%)\n  ZqX% = ZqX% + 1\n  ZqY% = ZqY% + 1\nEND SUB\nFUNCTION ZqBoom% (ZqN%)\n  ZqBoom% = 7\n  ZqL% = 1 / ZqN%\n  ZqBoom% = 8\nEND FUNCTION\n",
     },
     Prefix {
         name: "the subscript of a later array-element argument is out of range after an earlier element was evaluated; ON ERROR RESUME NEXT",
-        header: "DECLARE SUB ZqTwo (X%, Y%)\n",
+        header: "DECLARE SUB ZqTwo (ZqX%, ZqY%)\n",
         main: "DIM ZqD%(1 TO 3)\nON ERROR RESUME NEXT\nZqBig% = 99\nZqTwo ZqD%(1), ZqD%(ZqBig%)\nPRINT \"zq6\"; ZqD%(1)\nON ERROR GOTO 0\n",
         handlers: "",
         subs: SUB_TWO,
     },
     Prefix {
         name: "a FUNCTION called by a PRINT item fails; RESUME label abandons the PRINT statement",
-        header: "DECLARE FUNCTION ZqBoom% (N%)\n",
+        header: "DECLARE FUNCTION ZqBoom% (ZqN%)\n",
         main: "ON ERROR GOTO ZqH7\nPRINT \"zq7\"; 1, ZqBoom%(0); \"x\"\nPRINT \"not reached\"\nZqCont7:\nPRINT\nPRINT \"zq7 again\"\nON ERROR GOTO 0\n",
         handlers: "ZqH7:\nRESUME ZqCont7\n",
         subs: FN_BOOM,
@@ -87,17 +87,17 @@ pub const PREFIXES: &[Prefix] = &[
     },
     Prefix {
         name: "an error two calls deep inside a STATIC subprogram, by-reference arguments on both levels; RESUME label",
-        header: "DECLARE SUB ZqOuter (X%)\nDECLARE SUB ZqInner (Y%)\n",
+        header: "DECLARE SUB ZqOuter (ZqX%)\nDECLARE SUB ZqInner (ZqY%)\n",
         main: "DIM SHARED ZqZero%\nON ERROR GOTO ZqH9\nZqV% = 5\nZqOuter ZqV%\nPRINT \"not reached\"\nZqCont9:\nPRINT \"zq9\"\nZqOuter ZqW%\nPRINT \"zq9\"; ZqW%\nON ERROR GOTO 0\n",
         handlers: "ZqH9:\nZqZero% = 1\nRESUME ZqCont9\n",
-        subs: "SUB ZqOuter (X%)\n  X% = X% + 1\n  ZqInner X%\n  X% = X% + 1\nEND SUB\nSUB ZqInner (Y%) STATIC\n  ZqCount% = ZqCount% + 1\n  Y% = Y% + 10 / ZqZero%\nEND SUB\n",
+        subs: "SUB ZqOuter (ZqX%)\n  ZqX% = ZqX% + 1\n  ZqInner ZqX%\n  ZqX% = ZqX% + 1\nEND SUB\nSUB ZqInner (ZqY%) STATIC\n  ZqCount% = ZqCount% + 1\n  ZqY% = ZqY% + 10 / ZqZero%\nEND SUB\n",
     },
     Prefix {
         name: "a built-in with a negative count fails inside a string expression that is an argument; ON ERROR RESUME NEXT",
-        header: "DECLARE SUB ZqStr (A$, B$)\n",
+        header: "DECLARE SUB ZqStr (ZqP$, ZqR$)\n",
         main: "ON ERROR RESUME NEXT\nZqS$ = \"abc\"\nZqM% = -1\nZqStr ZqS$, \"<\" + LEFT$(ZqS$, ZqM%) + \">\"\nPRINT \"zq10\"; ZqS$\nON ERROR GOTO 0\n",
         handlers: "",
-        subs: "SUB ZqStr (A$, B$)\n  A$ = A$ + B$\nEND SUB\n",
+        subs: "SUB ZqStr (ZqP$, ZqR$)\n  ZqP$ = ZqP$ + ZqR$\nEND SUB\n",
     },
     Prefix {
         name: "INPUT # on a file number that is not open, two targets; RESUME NEXT",
